@@ -29,6 +29,9 @@ pub struct Bind {
     pub nth: usize,      // 1-based
     /// `bind?`: may be missing when the function lends a plain local instead (X9); see weave_body
     pub optional: bool,
+    /// `bind~`: if no local matches, the clauses that mention the placeholder are dropped (with a note) instead of the
+    /// whole function being a lost anchor
+    pub soft: bool,
 }
 
 #[derive(Debug, Clone)]
@@ -100,7 +103,7 @@ pub struct Unit {
 }
 
 const FN_KEYS: &[&str] = &[
-    "emit-as", "fx", "ret", "requires", "ensures", "decreases", "loop", "bind", "bind?", "exit-assert",
+    "emit-as", "fx", "ret", "requires", "ensures", "decreases", "loop", "bind", "bind?", "bind~", "exit-assert",
     "hint", "attr", "shape", "exit-assert-ret", "exit-ghost", "closure", "once-true", "before-each-call",
 ];
 const TOP_KEYS: &[&str] = &["unit", "fxcalls", "guardfn", "tryguardfn", "copy", "fn", "prelude", "typerewrite", "require-text", "x11-arg"];
@@ -242,7 +245,7 @@ pub fn parse(text: &str, path: &str) -> Unit {
                             panic!("{}:{}: unknown loop clause `{}`", path, ln, kw);
                         }
                     }
-                    "bind" | "bind?" => {
+                    "bind" | "bind?" | "bind~" => {
                         // bind $x = let-init-prefix TEXT [#n]
                         let ws: Vec<&str> = rest.split_whitespace().collect();
                         if ws.len() < 4 || ws[1] != "=" {
@@ -258,7 +261,7 @@ pub fn parse(text: &str, path: &str) -> Unit {
                                 }
                             }
                         }
-                        c.binds.push(Bind { var: ws[0].into(), how: ws[2].into(), pat: pat_words.join(""), nth, optional: w == "bind?" });
+                        c.binds.push(Bind { var: ws[0].into(), how: ws[2].into(), pat: pat_words.join(""), nth, optional: w == "bind?", soft: w == "bind~" });
                     }
                     "exit-assert" | "exit-assert-ret" => {
                         let (var, tail) = rest.split_once(char::is_whitespace).unwrap_or_else(|| panic!("{}:{}: exit-assert $x [..] expr", path, ln));
